@@ -49,6 +49,8 @@ class CallGraph:
         self.var_lambdas: dict[str, set[str]] = defaultdict(set)
         self.var_refs: list[tuple[str, str]] = []
         self._lvalue_ids: set[int] = set()
+        self._table_ctx = None
+        self._callee_ids: set[int] = set()
         for full, m in self.modnames.items():
             self._scan_block(tf.res.graph[full].tree.defs, f'{m}.<module>', m, None)
         for owner, full in self.var_refs:
@@ -140,6 +142,47 @@ class CallGraph:
         n = self.nodes
         stack = [st]
         seen = set()
+        # a module- or class-level assignment that stores functions in a table (`CHECKS = (f, g)`, `{'k': self_method}`): the
+        # functions are not called here; whoever reads the table may call them
+        outer_table = self._table_ctx
+        if owner.endswith('>') and isinstance(st, n.AssignmentStmt) and all(isinstance(lv, n.NameExpr) for lv in st.lvalues):
+            names = []
+            for lv in st.lvalues:
+                names.append(lv.fullname or f'{mod}.{lv.name}')
+                names.append('*.' + lv.name)
+            self._table_ctx = names
+            self._callee_ids = set()
+            todo = [st.rvalue]
+            seen_c = set()
+            while todo:
+                y = todo.pop()
+                if id(y) in seen_c or not isinstance(y, n.Node):
+                    continue
+                seen_c.add(id(y))
+                if isinstance(y, n.CallExpr):
+                    self._callee_ids.add(id(y.callee))
+                for name_ in self.tf._kids(type(y)):
+                    if name_ in ('node', 'info', 'defn', 'type', 'unanalyzed_type', 'analyzed', 'impl', 'original_def', 'var', 'func_def',
+                                 'type_annotation', 'unanalyzed_items', 'fullname', 'name'):
+                        continue
+                    try:
+                        v = getattr(y, name_)
+                    except Exception:  # noqa: BLE001
+                        continue
+                    st3 = [v]
+                    while st3:
+                        z = st3.pop()
+                        if isinstance(z, n.Node):
+                            todo.append(z)
+                        elif isinstance(z, (list, tuple)):
+                            st3.extend(z)
+        try:
+            self._scan_stmt_inner(st, owner, mod, cls, stack, seen)
+        finally:
+            self._table_ctx = outer_table
+
+    def _scan_stmt_inner(self, st, owner, mod, cls, stack, seen):
+        n = self.nodes
         while stack:
             x = stack.pop()
             if id(x) in seen:
@@ -167,6 +210,7 @@ class CallGraph:
                 if holder:
                     for lv in holder:
                         self.var_lambdas[lv.fullname or f'{mod}.{lv.name}'].add(q)
+                        self.var_lambdas['*.' + lv.name].add(q)
                         self._lvalue_ids.add(id(lv))
                 else:
                     self._edge(owner, q)
@@ -252,7 +296,11 @@ class CallGraph:
             if isinstance(nd, n.Var) and id(x) not in self._lvalue_ids and getattr(nd, 'fullname', None):
                 self.var_refs.append((owner, nd.fullname))
             if isinstance(nd, (n.FuncDef, n.Decorator, n.OverloadedFuncDef)) and nd.fullname:
-                self._add(owner, nd.fullname)
+                if self._table_ctx and id(x) not in self._callee_ids and short(nd.fullname):
+                    for key_ in self._table_ctx:
+                        self.var_lambdas[key_].add(short(nd.fullname))
+                else:
+                    self._add(owner, nd.fullname)
             elif isinstance(nd, n.TypeInfo):
                 s = short(nd.fullname)
                 if s:
@@ -289,6 +337,7 @@ class CallGraph:
                             if init:
                                 self._edge(owner, init)
                 return
+            self.var_refs.append((owner, '*.' + x.name))
             t = self.tf.types.get(x.expr)
             infos = self._infos_of_type(t)
             resolved = False
